@@ -144,7 +144,9 @@ Section O13.
   Definition idempotent (c : scase) : bool :=
     match c_again c with
     | Some o2 =>
-        is_none (ob_exn o2) && ob_rest_ok o2
+        (* the repeated call may only be stopped by the schema gate (a selection cloned into an empty
+           project changes the destination schema); either way it must not change anything *)
+        (is_none (ob_exn o2) || exn_opt_eqb (ob_exn o2) (Some ESchemaSyncConflict)) && ob_rest_ok o2
         && proj_eqb frepr (ob_dst (c_obs c)) (ob_dst o2) && proj_eqb frepr (ob_src (c_obs c)) (ob_src o2)
     | None => false
     end.
